@@ -82,7 +82,7 @@ claimed = {
    technique="contract-based deductive verification: stream-position and byte-content postconditions over prophecy/ghost stream models, lemma function for the raw round trip",
    design="DESIGN.md §11 C05"),
  "C02": dict(
-   text="Proof against a transcription of the specifications into contracts, independent of the code: EncodeHeader emits exactly version|direction bit, flags, stream id (1 signed byte in v2, 2 bytes big-endian from v3), opcode, 4-byte big-endian length and refuses unsupported versions; DecodeHeader returns exactly those fields from exactly those bytes and accepts only versions 2,3,4,5,0x41,0x42 and opcodes whose direction (request/response tables of the specifications) matches the direction bit - over all 2^16 version/opcode bytes and all other header contents; [byte], [short], [int], [long], [string], [long string], [bytes] (null = -1), [short bytes], [unsigned vint]/[vint] writers emit and readers accept exactly the specified bytes for every value.",
+   text="Proof against a transcription of the specifications into contracts, independent of the code: EncodeHeader emits exactly version|direction bit, flags, stream id (1 signed byte in v2, 2 bytes big-endian from v3), opcode, 4-byte big-endian length and refuses unsupported versions; DecodeHeader returns exactly those fields from exactly those bytes and accepts only versions 2,3,4,5,0x41,0x42 and opcodes whose direction (request/response tables of the specifications) matches the direction bit - over all 2^16 version/opcode bytes and all other header contents; [byte], [short], [int], [long], [string], [long string], [bytes] (null = -1), [short bytes], [unsigned vint]/[vint] writers emit and readers accept exactly the specified bytes for every value; the body prefix is [tracing id][warnings][custom payload] in that order - this obligation failed on the original tree (payload and warnings were swapped, symmetrically in encoder and decoder, hence invisible to round trips) and is fixed; query/batch/prepare/rows/variables flags are set exactly when their field is present.",
    note="PARTIAL: the body layout of the 17 messages (field order and presence per version), [value], [inet], [uuid], maps, lists and type descriptors are NOT covered; capability predicates per version are proved against specification tables under C19. The transcription of the specifications is the oracle. Read side of vints: value for encodings up to 6 bytes, byte count for all.",
    technique="contract-based deductive verification: byte-exact postconditions over ghost write streams and prophecy read streams, completely unrolled vint loops, header round-trip lemma",
    design="DESIGN.md §11 C02"),
